@@ -66,12 +66,31 @@ def replay_schedule(rec, seed):
     for i, q in enumerate(h[1:]):
         kind, arg, exp = q['q'], q['arg'], q['exp']
         if kind == 'get':
-            got = xc.q_get(ex, pos[arg], rng.randint(0, 3))
+            if seed % 7 == 3:
+                # the query Cell carries a stale value of its own, and the Cell the library hands back is used for the next query of it
+                cell = xc.mk_cell(pos[arg], 'stale', rng.randint(0, 3))
+                try:
+                    first = ex.get_cell(cell)
+                    got = xc.val_json('val', ex.get_cell(first).value)
+                except repo.E2PyclException:
+                    raise
+                except Exception:
+                    got = xc.val_json('exc', None)
+            else:
+                got = xc.q_get(ex, pos[arg], rng.randint(0, 3))
             if not c04.same_small(got, exp):
                 return False, f'query {i + 1} get {arg} -> {got}, ideal executor gives {exp}'
         elif kind == 'many':
             try:
-                got = [xc.val_json('val', c.value) for c in ex.get_cells([xc.mk_cell(pos[c], None, rng.randint(0, 3)) for c in arg])]
+                cells = [xc.mk_cell(pos[c], None, rng.randint(0, 3)) for c in arg]
+                if seed % 5 == 2 and arg:
+                    # the same coordinate twice in one call, in two spellings: one reply per entry, in the order asked
+                    cells = cells + [xc.mk_cell(pos[arg[0]], 'stale', rng.randint(0, 3))]
+                got = [xc.val_json('val', c.value) for c in ex.get_cells(cells)]
+                if len(cells) > len(arg):
+                    if len(got) != len(cells) or not c04.same_small(got[-1], got[0]):
+                        return False, f'query {i + 1} get_cells with {arg[0]} asked twice -> {got}: the two replies for it differ or one is missing'
+                    got = got[:-1]
             except repo.E2PyclException:
                 raise
             except Exception:
